@@ -1925,7 +1925,13 @@ class SessionCache(object):
                 continue
 
             if not isinstance(reverse, Set): throw(NotImplementedError)
-            if reverse in modified_m2m: continue
+            if reverse in modified_m2m:
+                # the pairs were already collected from the other side; only reset the bookkeeping of this side
+                for obj in objects:
+                    setdata = obj._vals_[attr]
+                    if obj._status_ == 'marked_to_delete': del obj._vals_[attr]
+                    else: setdata.added = setdata.removed = setdata.absent = None
+                continue
             added, removed = modified_m2m.setdefault(attr, (set(), set()))
             for obj in objects:
                 setdata = obj._vals_[attr]
